@@ -426,8 +426,11 @@ def check_main(pid, prop, tier, seed):
             if stall:
                 broken.append({'kind': 'search-stall', 'name': 'failing-input search', 'detail': stall})
             if found is not None and any(k['property'] == pid and k['key'] == found.get('key') for k in known):
+                # the search came back with an input of a LISTED finding: that explains nothing about what broke -- the broken
+                # obligation / correspondence is still reported (a known finding never masks a different violation)
                 known_hits.append(found)
-            else:
+                found = None
+            if True:
                 rp = os.path.join(VERIF, 'replays', f'{pid}-{tier}-{seed}.json')
                 if found is not None:
                     write_json(rp, {'property': pid, 'kind': 'failing-input', 'broken': jsonable(broken), **jsonable(found)})
